@@ -36,10 +36,10 @@ theorem accept_frame (s : St) :
     · subst h; simp [SameCore]
     · simp [h, SameCore]
 
-theorem handleBatch_frame (b : List Src) (s : St) :
-    (handleBatch s b).1.n = s.n ∧ (handleBatch s b).1.caller = s.caller ∧ (handleBatch s b).1.acc.ready = s.acc.ready ∧
-    (handleBatch s b).1.acc.pc = s.acc.pc ∧ (∀ k, SameCore ((handleBatch s b).1.ws k) (s.ws k)) ∧
-    (Src.shut ∈ b → (handleBatch s b).2 = true) := by
+theorem handleBatch_frame (fail : Bool) (b : List Src) (s : St) :
+    (handleBatch fail s b).1.n = s.n ∧ (handleBatch fail s b).1.caller = s.caller ∧ (handleBatch fail s b).1.acc.ready = s.acc.ready ∧
+    (handleBatch fail s b).1.acc.pc = s.acc.pc ∧ (∀ k, SameCore ((handleBatch fail s b).1.ws k) (s.ws k)) ∧
+    (Src.shut ∈ b → (handleBatch fail s b).2 = true) := by
   induction b generalizing s with
   | nil => exact ⟨rfl, rfl, rfl, rfl, fun k => SameCore.refl _, by simp⟩
   | cons e rest ih =>
@@ -47,12 +47,17 @@ theorem handleBatch_frame (b : List Src) (s : St) :
     | shut => exact ⟨rfl, rfl, rfl, rfl, fun k => SameCore.refl _, fun _ => rfl⟩
     | listen =>
       simp only [handleBatch]
-      obtain ⟨h1, h2, h3, h4, h5, h6⟩ := ih (accept s)
-      obtain ⟨a1, a2, a3, a4, _, a6⟩ := accept_frame s
-      refine ⟨h1.trans a1, h2.trans a2, h3.trans a3, h4.trans a4, fun k => (h5 k).trans (a6 k), ?_⟩
-      intro hm
-      apply h6
-      simpa using hm
+      cases fail with
+      | true =>
+        obtain ⟨h1, h2, h3, h4, h5, h6⟩ := ih s
+        exact ⟨h1, h2, h3, h4, h5, fun hm => h6 (by simpa using hm)⟩
+      | false =>
+        obtain ⟨h1, h2, h3, h4, h5, h6⟩ := ih (accept s)
+        obtain ⟨a1, a2, a3, a4, _, a6⟩ := accept_frame s
+        refine ⟨h1.trans a1, h2.trans a2, h3.trans a3, h4.trans a4, fun k => (h5 k).trans (a6 k), ?_⟩
+        intro hm
+        apply h6
+        simpa using hm
 
 /-! ### the invariant -/
 
@@ -124,7 +129,7 @@ theorem inv_stepW (s : St) (j : Nat) (h : Inv s) : Inv (stepW s j).1 := by
         · simpa [e] using h.live k hk hn
   · exact h
 
-theorem inv_stepA (s : St) (h : Inv s) : Inv (stepA s).1 := by
+theorem inv_stepA (fail : Bool) (s : St) (h : Inv s) : Inv (stepA fail s).1 := by
   unfold stepA
   split
   · -- poll
@@ -145,7 +150,7 @@ theorem inv_stepA (s : St) (h : Inv s) : Inv (stepA s).1 := by
       · rw [hpc] at h1; cases h1.1
   · -- woke
     rename_i hpc
-    obtain ⟨f1, f2, f3, _, f5, f6⟩ := handleBatch_frame s.acc.batch s
+    obtain ⟨f1, f2, f3, _, f5, f6⟩ := handleBatch_frame fail s.acc.batch s
     split
     · refine ⟨by simpa [f1] using h.pos, ?_, fun k hk hf => ?_, fun k hk hn => ?_, fun _ => Or.inl rfl⟩
       · simpa [f1, f2] using h.idx
@@ -285,7 +290,8 @@ theorem inv_stepS (s : St) (h : Inv s) : Inv (stepS cfg0 s).1 := by
 
 theorem inv_step (s : St) (a : Actor) (h : Inv s) : Inv (step cfg0 s a) := by
   cases a with
-  | acc => exact inv_stepA s h
+  | acc => exact inv_stepA false s h
+  | accF => exact inv_stepA true s h
   | w j => exact inv_stepW s j h
   | caller => exact inv_stepS s h
   | conn j => exact inv_connect s j h
@@ -306,16 +312,34 @@ theorem stepS_frame (c : Cfg) (s : St) :
 
 /-! ### `n` never changes; `done` stays -/
 
+theorem stepA_n (fail : Bool) (s : St) : (stepA fail s).1.n = s.n := by
+  unfold stepA
+  split
+  · split <;> rfl
+  · obtain ⟨f1, _⟩ := handleBatch_frame fail s.acc.batch s
+    split <;> exact f1
+  · rfl
+
+theorem stepA_caller (fail : Bool) (s : St) : (stepA fail s).1.caller = s.caller := by
+  unfold stepA
+  split
+  · split <;> rfl
+  · obtain ⟨_, f2, _⟩ := handleBatch_frame fail s.acc.batch s
+    split <;> exact f2
+  · rfl
+
+theorem stepA_pc (fail : Bool) (s : St) (j : Nat) : ((stepA fail s).1.ws j).pc = (s.ws j).pc := by
+  unfold stepA
+  split
+  · split <;> rfl
+  · obtain ⟨_, _, _, _, f5, _⟩ := handleBatch_frame fail s.acc.batch s
+    split <;> exact (f5 j).1
+  · rfl
+
 theorem step_n (c : Cfg) (s : St) (a : Actor) : (step c s a).n = s.n := by
   cases a with
-  | acc =>
-    show (stepA s).1.n = s.n
-    unfold stepA
-    split
-    · split <;> rfl
-    · obtain ⟨f1, _⟩ := handleBatch_frame s.acc.batch s
-      split <;> exact f1
-    · rfl
+  | acc => exact stepA_n false s
+  | accF => exact stepA_n true s
   | w j =>
     show (stepW s j).1.n = s.n
     unfold stepW
@@ -333,14 +357,8 @@ theorem run_n (c : Cfg) (sched : List Actor) (s : St) : (run c sched s).n = s.n 
 
 theorem step_caller_of_ne (c : Cfg) (s : St) (a : Actor) (h : a ≠ .caller) : (step c s a).caller = s.caller := by
   cases a with
-  | acc =>
-    show (stepA s).1.caller = s.caller
-    unfold stepA
-    split
-    · split <;> rfl
-    · obtain ⟨_, f2, _⟩ := handleBatch_frame s.acc.batch s
-      split <;> exact f2
-    · rfl
+  | acc => exact stepA_caller false s
+  | accF => exact stepA_caller true s
   | w j =>
     show (stepW s j).1.caller = s.caller
     unfold stepW
@@ -383,14 +401,8 @@ theorem rankA_zero {a : Acceptor} (h : rankA a = 0) : a.pc = .exited := by
 /-- a step of another actor leaves a worker's program counter alone -/
 theorem step_pc_other (c : Cfg) (s : St) (a : Actor) (j : Nat) (h : a ≠ .w j) : ((step c s a).ws j).pc = (s.ws j).pc := by
   cases a with
-  | acc =>
-    show ((stepA s).1.ws j).pc = _
-    unfold stepA
-    split
-    · split <;> rfl
-    · obtain ⟨_, _, _, _, f5, _⟩ := handleBatch_frame s.acc.batch s
-      split <;> exact (f5 j).1
-    · rfl
+  | acc => exact stepA_pc false s j
+  | accF => exact stepA_pc true s j
   | w k =>
     have hk : j ≠ k := fun e => h (by rw [e])
     show ((stepW s k).1.ws j).pc = _
@@ -449,10 +461,11 @@ theorem rankW_run (sched : List Actor) (s : St) (j : Nat) (h : Inv s) (hd : s.ca
       omega
 
 /-- a step of another actor leaves the acceptor's program counter and batch alone -/
-theorem step_acc_other (c : Cfg) (s : St) (a : Actor) (h : a ≠ .acc) :
+theorem step_acc_other (c : Cfg) (s : St) (a : Actor) (h : a ≠ .acc) (h' : a ≠ .accF) :
     (step c s a).acc.pc = s.acc.pc ∧ (step c s a).acc.batch = s.acc.batch := by
   cases a with
   | acc => exact absurd rfl h
+  | accF => exact absurd rfl h'
   | w k =>
     show (stepW s k).1.acc.pc = _ ∧ (stepW s k).1.acc.batch = _
     unfold stepW
@@ -463,10 +476,10 @@ theorem step_acc_other (c : Cfg) (s : St) (a : Actor) (h : a ≠ .acc) :
   | caller => exact ⟨(stepS_frame c s).2.1, (stepS_frame c s).2.2.1⟩
   | conn k => exact ⟨rfl, rfl⟩
 
-theorem rankA_step_own (s : St) (h : Inv s) (hd : s.caller = .done) :
-    rankA (step cfg0 s .acc).acc ≤ rankA s.acc - 1 := by
+theorem rankA_stepA (fail : Bool) (s : St) (h : Inv s) (hd : s.caller = .done) :
+    rankA (stepA fail s).1.acc ≤ rankA s.acc - 1 := by
   have hlv := h.accLive (by rw [hd]; trivial)
-  show rankA (stepA s).1.acc ≤ _
+  show rankA (stepA fail s).1.acc ≤ _
   unfold stepA
   split
   · rename_i hpc
@@ -484,7 +497,7 @@ theorem rankA_step_own (s : St) (h : Inv s) (hd : s.caller = .done) :
         simp [rankA, hpc, this]
       · rw [hpc] at h1; cases h1.1
   · rename_i hpc
-    obtain ⟨_, _, _, _, _, f6⟩ := handleBatch_frame s.acc.batch s
+    obtain ⟨_, _, _, _, _, f6⟩ := handleBatch_frame fail s.acc.batch s
     split
     · simp [rankA]
     · rename_i hr
@@ -502,14 +515,18 @@ theorem rankA_run (sched : List Actor) (s : St) (h : Inv s) (hd : s.caller = .do
     show rankA (run cfg0 rest (step cfg0 s a)).acc ≤ _
     by_cases e : a = .acc
     · subst e
-      have own := rankA_step_own s h hd
+      have own : rankA (step cfg0 s .acc).acc ≤ rankA s.acc - 1 := rankA_stepA false s h hd
       simp only [List.count_cons_self]
       omega
-    · obtain ⟨e1, e2⟩ := step_acc_other cfg0 s a e
-      have same : rankA (step cfg0 s a).acc = rankA s.acc := by unfold rankA; rw [e1, e2]
-      have hc : (a :: rest).count .acc = rest.count .acc := by
+    · have hc : (a :: rest).count .acc = rest.count .acc := by
         rw [List.count_cons]; simp [e]
-      omega
+      by_cases e' : a = .accF
+      · subst e'
+        have own : rankA (step cfg0 s .accF).acc ≤ rankA s.acc - 1 := rankA_stepA true s h hd
+        omega
+      · obtain ⟨e1, e2⟩ := step_acc_other cfg0 s a e e'
+        have same : rankA (step cfg0 s a).acc = rankA s.acc := by unfold rankA; rw [e1, e2]
+        omega
 
 /-- shutdown() itself never waits: each own step brings the caller nearer to its return -/
 theorem rankC_step_own (s : St) (h : Inv s) : rankC s.n (step cfg0 s .caller).caller ≤ rankC s.n s.caller - 1 := by
